@@ -43,6 +43,52 @@ SEQ_FIXED = [
 ]
 
 
+RAIN = "total = 0\nfor report in reports:\n    total = total + report['Data']['Rain']\nprint(total)\n"
+PAY = "total = 0\nfor r in rs:\n    total = total + (r['a'] + bonus * 2)\nprint(total)\n"
+# (program, outer pattern, its expectation, the placeholder to continue below, inner pattern, its expectation)
+CONT_FIXED = [
+    (RAIN, "for _r_ in ___:\n    total = total + __expr__\n", {'names': {'_r_': 'report'}, 'exps': {'__expr__': "report['Data']['Rain']"}},
+     '__expr__', "_r_['Data'][__expr__]\n", {'names': {'_r_': 'report'}, 'exps': {'__expr__': "'Rain'"}}),
+    (PAY, "for _r_ in ___:\n    total = total + __expr__\n", {'names': {'_r_': 'r'}, 'exps': {'__expr__': "r['a'] + bonus * 2"}},
+     '__expr__', "__expr__ + bonus * 2\n", {'names': {}, 'exps': {'__expr__': "r['a']"}}),
+    (PAY, "for _r_ in ___:\n    total = total + __expr__\n", {'names': {'_r_': 'r'}, 'exps': {'__expr__': "r['a'] + bonus * 2"}},
+     '__expr__', "_r_['a'] + __expr__\n", {'names': {'_r_': 'r'}, 'exps': {'__expr__': "bonus * 2"}}),
+    (PAY, "for _r_ in ___:\n    total = total + __expr__\n", {'names': {'_r_': 'r'}, 'exps': {'__expr__': "r['a'] + bonus * 2"}},
+     '__expr__', "_r_[__expr__] + _b_ * 2\n", {'names': {'_r_': 'r', '_b_': 'bonus'}, 'exps': {'__expr__': "'a'"}}),
+    (PAY, "for _r_ in ___:\n    total = total + __expr__\n", {'names': {'_r_': 'r'}, 'exps': {'__expr__': "r['a'] + bonus * 2"}},
+     '__expr__', "_r_['a'] + __expr__ * 2\n", {'names': {'_r_': 'r'}, 'exps': {'__expr__': "bonus"}}),
+]
+
+
+def continuations(rng, pats, meta):
+    """for derived patterns that bound an __eK__ placeholder to a compound expression: a second pattern derived from that
+    expression (sub-expressions -> holes with the SAME names again, identifiers -> the same _x_ placeholders), to be searched
+    continuing from the first match"""
+    out = []
+    for pat, (kind, exp) in zip(pats, meta):
+        if kind != 'derived' or not exp or not exp.get('exps') or len(out) >= 3:
+            continue
+        for ph, src in exp['exps'].items():
+            try:
+                node = ast.parse(src, mode='eval').body
+            except SyntaxError:
+                continue
+            if isinstance(node, (ast.Name, ast.Constant)) or pat.count(ph) != 1:
+                continue
+            for _ in range(4):
+                try:
+                    inner, iexp = caitgen.derive(rng, src + '\n', allow=('hole', 'rename'))
+                except (caitgen.Refuse, SyntaxError):
+                    continue
+                if not (iexp['exps'] or iexp['names']) or inner.strip() in iexp['exps'] or inner.strip() == '___':
+                    continue
+                # the same identifier must not stand behind two different placeholder names (derive() names them after the identifier)
+                out.append({'outer': pat, 'outer_exp': {'names': exp['names'], 'exps': exp['exps']}, 'ph': ph, 'inner': inner,
+                            'inner_exp': {'names': iexp['names'], 'exps': iexp['exps']}})
+                break
+    return out
+
+
 def must_match(case, pi):
     m = case.get('meta')
     return m is not None and m[pi][0] in ('derived', 'self')
@@ -115,10 +161,43 @@ def correspondence(ctx):
             dp = pats[1] if len(pats) > 1 else prog
             seq = [(prog, dp), (other, op_), (prog, dp), ('x = = 1\n', '___ = ___\n'), (prog, dp), ('', dp), (other, dp), ('\n', op_), (other, op_), (prog, op_)]
             explicit = [list(x) for x in seq[:rng.randrange(3, len(seq) + 1)]]
-        cases.append({'program': prog, 'patterns': pats, 'meta': meta, 'perturb': perturb, 'explicit': explicit})
+        cases.append({'program': prog, 'patterns': pats, 'meta': meta, 'perturb': perturb, 'explicit': explicit,
+                      'cont': continuations(rng, pats, meta)})
+    for prog, outer, oexp, ph, inner, iexp in CONT_FIXED:
+        cases.append({'program': prog, 'patterns': [prog], 'meta': [('self', {'names': {}, 'exps': {}, 'steps': ['whole']})], 'perturb': {}, 'explicit': [],
+                      'cont': [{'outer': outer, 'outer_exp': oexp, 'ph': ph, 'inner': inner, 'inner_exp': iexp}]})
+    import time as _t
+    _t0 = _t.time()
     res, mism = c10.run_cases(ctx, cases, 'derived')
+    slow = sorted(((r.get('seconds', 0), i) for i, r in enumerate(res)), reverse=True)[:3]
+    ctx.notes.append('run_cases %.0fs; slowest cases (s, index, #continued): %s' % (_t.time() - _t0, [(a, i, len(cases[i].get('cont', []))) for a, i in slow]))
     c10.explicit_pass(ctx, cases, res)
     for case, rec in zip(cases, res):
+        for cont, one in zip(case.get('cont', []), rec.get('continued', [])):
+            ctx.count('continued-searches')
+            if not one.get('first'):
+                ctx.count('continued-searches:first-match-not-as-derived')
+                continue
+            ctx.case(('continued', case['program'], cont['outer'], cont['inner']), nontrivial=True,
+                     sample={'program': case['program'], 'outer': cont['outer'], 'inner': cont['inner'], 'expected': cont['inner_exp'],
+                             'below': one.get('below')} if len(case['program']) < 200 else None)
+            iexp = cont['inner_exp']
+            for route in ('below', 'below-again', 'use_previous'):
+                got = one.get(route, {})
+                replay = {'program': case['program'], 'outer_pattern': cont['outer'], 'continue_below': cont['ph'], 'inner_pattern': cont['inner'],
+                          'route': route, 'expected': iexp, 'observed': got}
+                if 'crash' in got:
+                    replay['why'] = 'the continued search raised %s' % got['crash']
+                    ctx.violation('continued-search-raises', replay)
+                    continue
+                ok = any(all(b['names'].get(ph) == [orig] for ph, orig in iexp['names'].items() if ph in cont['inner']) and
+                         all(b['exps'].get(ph) == src for ph, src in iexp['exps'].items()) for b in got.get('bindings', []))
+                if not ok:
+                    replay['why'] = ('the inner pattern was derived from the expression %s was bound to, but continuing from that match (%s) no match '
+                                     'binds its placeholders to what they replaced: expected %s, got %s'
+                                     % (cont['ph'], route, iexp, [{'names': {k: v for k, v in b['names'].items() if k in cont['inner']}, 'exps': b['exps']}
+                                                                  for b in got.get('bindings', [])][:3]))
+                    ctx.violation('continued-search-wrong-binding' if got.get('bindings') else 'continued-search-not-found', replay)
         if 'student' not in rec:
             continue
         if rec.get('fields_before') != rec.get('fields_after'):
